@@ -3,7 +3,7 @@
 `canon_*` read vizier objects through their public accessors into plain nested
 structures (records = dict with field names, data-keyed maps = `M`, lists).
 `diff` compares two such structures by *value* (1 == 1.0, NaN == NaN, the
-time fields within one microsecond) and returns the differing field paths.
+time fields to the microsecond) and returns the differing field paths.
 
 Masked (documented as not transmitted): Metric.std, checkpoint_path,
 related_links, the text of stopping_reason.  Wire-equivalent spellings that are
@@ -38,15 +38,15 @@ def _same_scalar(a, b, field):
   if isinstance(a, float) and isinstance(b, float) and (
       math.isnan(a) or math.isnan(b)):
     return math.isnan(a) and math.isnan(b)
-  if field in US_FIELDS:
-    return abs(a - b) <= 1
-  if field in SEC_FIELDS:
-    return abs(a - b) <= 1.0000001e-6
+  if field in US_FIELDS:  # integer microseconds since the epoch
+    return a == b
+  if field in SEC_FIELDS:  # the same number of microseconds
+    return abs(a - b) < 0.5e-6
   return a == b
 
 
 def diff(a, b, path=(), out=None):
-  """-> list of (field_path_string, kind, detail); kind in
+  """-> list of (field_path_string, kind, detail, a, b); kind in
   {'missing','extra','value','type'} seen from a=expected, b=got."""
   out = [] if out is None else out
   field = path[-1] if path else ''
@@ -57,26 +57,26 @@ def diff(a, b, path=(), out=None):
       sub = path if keyed else path + (k,)
       if k not in b:
         out.append((p if keyed else '.'.join(sub), 'missing',
-                    'key %r lost' % (k,)))
+                    'key %r lost' % (k,), a[k], None))
       else:
         diff(a[k], b[k], sub, out)
     for k in b:
       if k not in a:
         out.append((p if keyed else '.'.join(path + (k,)), 'extra',
-                    'key %r appeared' % (k,)))
+                    'key %r appeared' % (k,), None, b[k]))
     return out
   if isinstance(a, list) and isinstance(b, list):
     if len(a) != len(b):
-      out.append((p, 'value', 'length %d -> %d' % (len(a), len(b))))
+      out.append((p, 'value', 'length %d -> %d' % (len(a), len(b)), a, b))
       return out
     for x, y in zip(a, b):
       diff(x, y, path, out)
     return out
   if isinstance(a, (dict, list)) or isinstance(b, (dict, list)):
-    out.append((p, 'type', '%r -> %r' % (a, b)))
+    out.append((p, 'type', '%.200r -> %.200r' % (a, b), a, b))
     return out
   if not _same_scalar(a, b, field):
-    out.append((p, 'value', '%r -> %r' % (a, b)))
+    out.append((p, 'value', '%r -> %r' % (a, b), a, b))
   return out
 
 
@@ -243,7 +243,7 @@ def proto_diff_path(a, b, path=''):
   for fd in a.DESCRIPTOR.fields:
     va, vb = getattr(a, fd.name), getattr(b, fd.name)
     sub = (path + '.' if path else '') + fd.name
-    if fd.label == fd.LABEL_REPEATED:
+    if fd.is_repeated:
       la, lb = list(va), list(vb)
       if fd.message_type is not None:
         if len(la) != len(lb):
